@@ -360,9 +360,15 @@ def signature_shapes(nmax):
     return out
 
 
-def call_shapes(tier):
+def call_shapes(tier, n=0):
+    """quick: <= 2 positional, <= 2 named, *seq / **map absent or of length <= 1.
+    thorough: signatures of <= 2 parameters get <= 3 positional, <= 2 named, lengths <= 2; signatures of 3 parameters get
+    <= 2 positional, <= 1 named, lengths <= 1 (measured: one 3-parameter signature with 2 named + a 1-key mapping already
+    takes > 15 min of model enumeration on one core)"""
     if tier == 'quick':
         P, K, S, W = 2, 2, (None, 0, 1), (None, 0, 1)
+    elif n >= 3:
+        P, K, S, W = 2, 1, (None, 1), (None, 1)
     else:
         P, K, S, W = 3, 2, (None, 0, 1, 2), (None, 0, 1, 2)
     out = []
